@@ -237,7 +237,7 @@ var values = []string{"x", "y", "z", "", "a b", "1", "q*", "-n"}
 var keys = []string{"k", "j", "2", "0"}
 
 func (g *Gen) pick(l []string) string { return l[g.R.IntN(len(l))] }
-func (g *Gen) p(n int) bool            { return g.R.IntN(n) == 0 }
+func (g *Gen) p(n int) bool           { return g.R.IntN(n) == 0 }
 
 func (g *Gen) arrRhs() *Rhs {
 	n := g.R.IntN(5)
